@@ -82,6 +82,14 @@ CmtInv == R.kind = "cmt" =>
 \* a long piece (its YAML is larger than a mebibyte) goes through the pipe whole: 4 keys per C triad, one beat each
 BigPipeInv == R.kind = "bigpipe" =>
    /\ R.convOk /\ R.writeOk /\ R.ons = 4 * R.n /\ R.eot = 960 * R.n
+\* free texts: a text (txt and lic on a rest, mrk on a chord) written in the instances YAML reaches the file's text, lyric and
+\* marker events byte for byte, directly and through `write conv -c cmt | write` (which adds one text event for the chord)
+TextRtInv == R.kind = "textrt" =>
+   LET want == <<<<1>> \o R.text, <<5>> \o R.text, <<6>> \o R.text>>
+       own(s) == SelectSeq(s, LAMBDA e : e[1] # 1 \/ e = <<1>> \o R.text)      \* (drop the chord-name text cmt added)
+   IN /\ R.directOk /\ R.parseOk /\ R.convOk /\ R.viaConvOk
+      /\ R.direct = want
+      /\ own(R.viaConv) = want
 \* one line of the instances YAML longer than any line buffer (a long text, a long comment): nothing is cut; four
 \* triads with their bass, one beat each, and the text whole
 BigLineInv == R.kind = "bigline" =>
